@@ -3,6 +3,7 @@
 
 use crate::dbmodel::*;
 use crate::dbprog::*;
+use crate::dbprog::{Kind, Kv, Op, Ref, Search, Val, Values};
 use agdb::*;
 use std::collections::{BTreeMap, BTreeSet};
 
@@ -158,7 +159,39 @@ pub fn build(elems: &[i64], op: &Op) -> Built {
     }
 }
 
+thread_local! {
+    /// When set, every mutating query `step` executes is recorded with its result (srvsim replays the
+    /// concrete queries against the server and compares).
+    pub static RECORD: std::cell::RefCell<Option<Vec<(QueryType, Result<QueryResult, String>)>>> = const { std::cell::RefCell::new(None) };
+}
+
+impl Built {
+    pub fn query_type(&self) -> QueryType {
+        match self {
+            Built::InsertNodes(q) => QueryType::InsertNodes(q.clone()),
+            Built::InsertEdges(q) => QueryType::InsertEdges(q.clone()),
+            Built::InsertValues(q) => QueryType::InsertValues(q.clone()),
+            Built::InsertAliases(q) => QueryType::InsertAlias(q.clone()),
+            Built::RemoveAliases(q) => QueryType::RemoveAliases(q.clone()),
+            Built::InsertIndex(q) => QueryType::InsertIndex(q.clone()),
+            Built::RemoveIndex(q) => QueryType::RemoveIndex(q.clone()),
+            Built::Remove(q) => QueryType::Remove(q.clone()),
+            Built::RemoveValues(q) => QueryType::RemoveValues(q.clone()),
+        }
+    }
+}
+
 fn exec_built<S: StorageData>(t: &mut TransactionMut<'_, S>, b: &Built) -> Result<QueryResult, DbError> {
+    let r = exec_built_inner(t, b);
+    RECORD.with(|rec| {
+        if let Some(v) = rec.borrow_mut().as_mut() {
+            v.push((b.query_type(), r.as_ref().map(|x| x.clone()).map_err(|e| e.description.clone())));
+        }
+    });
+    r
+}
+
+fn exec_built_inner<S: StorageData>(t: &mut TransactionMut<'_, S>, b: &Built) -> Result<QueryResult, DbError> {
     match b {
         Built::InsertNodes(q) => t.exec_mut(q),
         Built::InsertEdges(q) => t.exec_mut(q),
